@@ -78,6 +78,8 @@ func runTrie(seed uint64, n int, outDir string, replay string) {
 				trieDerive(o, rc, ans)
 			} else if rc.Chance(12) {
 				trieGC(o, rc)
+			} else if rc.Chance(12) {
+				trieRange(o, rc)
 			} else {
 				trieHistory(o, rc, ans, rc.Chance(30))
 			}
@@ -191,6 +193,114 @@ func trieGC(o *h.Out, rc *h.Rng) {
 		for _, b := range live {
 			check(b, fmt.Sprintf("after block %d", n), tdb)
 		}
+	}
+}
+
+// trieRange: range proofs over a trie of fixed-length keys (as state sync uses them).  T3: the proof of a contiguous run
+// of the sorted content verifies and says correctly whether more keys follow; the same proof does not verify a run with
+// an altered value, a missing inner entry or a foreign entry; a zero-element proof ("nothing at or after this key")
+// verifies exactly when no stored key is at or after it - in particular not when the key itself is stored.
+func trieRange(o *h.Out, rc *h.Rng) {
+	db := trie.NewDatabase(rawdb.NewMemoryDatabase(log.Global))
+	tr, _ := trie.New(common.Hash{}, db)
+	n := 1 + rc.Intn(40)
+	if rc.Chance(15) {
+		n = 200 + rc.Intn(200)
+	}
+	content := map[string][]byte{}
+	for len(content) < n {
+		k := rc.Bytes(32)
+		v := trVal(rc)
+		content[string(k)] = v
+		tr.Update(k, v)
+	}
+	var keys [][]byte
+	for k := range content {
+		keys = append(keys, []byte(k))
+	}
+	sort.Slice(keys, func(i, j int) bool { return bytes.Compare(keys[i], keys[j]) < 0 })
+	vals := make([][]byte, len(keys))
+	for i, k := range keys {
+		vals[i] = content[string(k)]
+	}
+	if rc.Bool() { // committed and reloaded, or fresh in memory
+		root, _ := tr.Commit(nil)
+		db.Commit(root, false, nil)
+		tr, _ = trie.New(root, db)
+	}
+	root := tr.Hash()
+	proofOf := func(ks ...[]byte) *memorydb.Database {
+		p := memorydb.New(log.Global)
+		for _, k := range ks {
+			if err := tr.Prove(k, 0, p); err != nil {
+				panic(err)
+			}
+		}
+		return p
+	}
+	o.Count("range:trie")
+	// (1) a contiguous run
+	i := rc.Intn(n)
+	j := i + 1 + rc.Intn(n-i)
+	ks, vs := keys[i:j], vals[i:j]
+	p := proofOf(ks[0], ks[len(ks)-1])
+	more, err := trie.VerifyRangeProof(root, ks[0], ks[len(ks)-1], ks, vs, p)
+	if err != nil {
+		o.Violate("c18-range-proof-rejected", fmt.Sprintf("the proof of entries %d..%d of %d sorted entries does not verify: %v", i, j-1, n, err))
+	} else if more != (j < n) {
+		o.Violate("c18-range-proof-wrong-continuation", fmt.Sprintf("entries %d..%d of %d: the verifier says more=%v", i, j-1, n, more))
+	}
+	// (2) deviations of the run under the same proof
+	if len(ks) >= 1 {
+		av := append([][]byte{}, vs...)
+		x := rc.Intn(len(av))
+		av[x] = append(append([]byte{}, av[x]...), 0x01)
+		if _, err := trie.VerifyRangeProof(root, ks[0], ks[len(ks)-1], ks, av, p); err == nil {
+			o.Violate("c18-range-proof-accepts-wrong-content", fmt.Sprintf("entries %d..%d of %d with the value of entry %d altered still verify", i, j-1, n, i+x))
+		}
+	}
+	if len(ks) >= 3 {
+		x := 1 + rc.Intn(len(ks)-2)
+		dk := append(append([][]byte{}, ks[:x]...), ks[x+1:]...)
+		dv := append(append([][]byte{}, vs[:x]...), vs[x+1:]...)
+		if _, err := trie.VerifyRangeProof(root, ks[0], ks[len(ks)-1], dk, dv, p); err == nil {
+			o.Violate("c18-range-proof-accepts-wrong-content", fmt.Sprintf("entries %d..%d of %d with inner entry %d left out still verify", i, j-1, n, i+x))
+		}
+	}
+	// (3) zero-element proofs: at a stored key (the greatest, another one), just after the greatest, in a gap
+	probe := func(k []byte, what string) {
+		atOrAfter := false
+		for _, s := range keys {
+			if bytes.Compare(s, k) >= 0 {
+				atOrAfter = true
+				break
+			}
+		}
+		_, err := trie.VerifyRangeProof(root, k, nil, nil, nil, proofOf(k))
+		switch {
+		case atOrAfter && err == nil:
+			o.Violate("c18-empty-range-proof-accepted", fmt.Sprintf("a proof that nothing is stored at or after %x.. verifies although %s (%d entries)", k[:4], what, n))
+		case !atOrAfter && err != nil:
+			o.Violate("c18-range-proof-rejected", fmt.Sprintf("the proof that nothing is stored at or after %x.. (%s) does not verify: %v", k[:4], what, err))
+		}
+		o.Count("range:empty:" + what)
+	}
+	probe(keys[n-1], "the key is stored and is the greatest")
+	probe(keys[rc.Intn(n)], "the key is stored")
+	after := append([]byte{}, keys[n-1]...)
+	for b := 31; b >= 0; b-- {
+		after[b]++
+		if after[b] != 0 {
+			break
+		}
+	}
+	if bytes.Compare(after, keys[n-1]) > 0 {
+		probe(after, "the key follows the greatest stored key")
+	}
+	before := append([]byte{}, keys[0]...)
+	before[31] ^= 0x01
+	if _, ok := content[string(before)]; !ok {
+		probe(before, "the key is not stored, others follow or not")
 	}
 }
 
